@@ -142,7 +142,7 @@ package unary
 //@ inline func (db *DB) index() *index.Domain
 //@ ignore func (db *DB) resolveByteOffset() telem.Size
 //@ # domain.Delete calls both with the start of the domain that contains ts (an index lookup that was exact)
-//@ spec func offsetReady(db *DB, domainStart telem.TimeStamp, ts telem.TimeStamp) bool = db.idx != nil && db.idx.DB != nil && domain.SpecDBLen(db.idx.DB) <= 2147483648 && 0 <= domainStart && domainStart <= ts
+//@ spec func offsetReady(db *DB, domainStart telem.TimeStamp, ts telem.TimeStamp) bool = db.idx != nil && db.idx.DB != nil && domain.SpecDBLen(db.idx.DB) <= 2147483648 && index.SpecWholeStamps(db.idx.DB) && 0 <= domainStart && domainStart <= ts && domainStart < 9223372036854775807
 //@ # the sample offset handed to the byte-offset resolver is the number of index stamps in [domainStart, ts)
 //@ func (db *DB) calculateStartOffset(ctx context.Context, domainStart telem.TimeStamp, ts telem.TimeStamp) (off telem.Size, snapped telem.TimeStamp, err error)
 //@   overflow off
@@ -173,14 +173,32 @@ package unary
 //@ ignore func (w *Writer) updateHwm()
 //@ ignore func (w *controlledWriter) loadAlignment() telem.Alignment
 //@ ignore func (w *controlledWriter) storeAlignment()
-//@ ignore func (t *offsetTracker) count() int64
+//@ # samples written through the controlled writer so far: uninterpreted for the callers here (pragma abstract)
+//@ pure func (t *offsetTracker) count(dw *domain.Writer) int64
 //@ ignore func (t *offsetTracker) record()
 //@ func (w *Writer) write(series telem.Series, a telem.Alignment, derive bool) (out telem.Alignment, err error)
 //@   pragma wraps uint32 conversions of sample counts and byte offsets inside a domain (domains stay below 4 GiB)
 //@   pragma opaque_func_values wrapError
-//@   pragma abstract NewAlignment AddSamples DomainIndex
+//@   pragma abstract NewAlignment AddSamples DomainIndex count
 //@   overflow off
 //@   requires w.control != nil && w.cfg.Persist != nil
 //@   # the gate is attached to a region whose resource (the controlled domain writer) exists
 //@   requires control.SpecGateOK(w.control) && control.SpecGateResource(w.control) != nil && control.SpecGateResource(w.control).tracker != nil
 //@   assert_before "_, err = dw.Write(series.Data)" err == nil && !w.closed && dw == control.SpecGateResource(w.control)
+
+//@ # ---------------------------------------------------------------- commit end of a data channel (C01/C03)
+//@ # A data channel's commit does not carry an end: it is derived from the index. With n samples
+//@ # written since the writer's start (a stored index timestamp), the domain writer is committed
+//@ # with end = (index timestamp of the (n-1)-th sample after the start) + 1, wherever in the
+//@ # contiguous index domains that sample lies; an explicit end is passed through unchanged.
+//@ ignore func (t *offsetTracker) publish()
+//@ func (w *Writer) commitWithEnd(ctx context.Context, end telem.TimeStamp) (ts telem.TimeStamp, err error)
+//@   pragma abstract count
+//@   overflow off
+//@   requires w.control != nil && control.SpecGateOK(w.control) && control.SpecGateResource(w.control) != nil && control.SpecGateResource(w.control).tracker != nil
+//@   requires w.idx != nil && w.idx.DB != nil && w.cfg.Start >= 0 && w.cfg.Start < 9223372036854775807 && index.SpecWholeStamps(w.idx.DB) && domain.SpecDBLen(w.idx.DB) <= 2147483648
+//@   atcall Stamp ref == w.cfg.Start && continuous && offset == dw.tracker.count(dw.Writer) - 1
+//@   atcall Commit old(end) != 0 ==> end == old(end)
+//@   atcall Commit old(end) == 0 && dw.tracker.count(dw.Writer) == 1 ==> (forall p int, s int64 :: index.SpecRefAt(w.idx.DB, w.cfg.Start, p, s) && s < index.SpecCnt(w.idx.DB, p) && index.SpecIdxStamp(w.idx.DB, p, s) == w.cfg.Start ==> end == w.cfg.Start + 1)
+//@   atcall Commit old(end) == 0 && dw.tracker.count(dw.Writer) > 1 ==> (forall p int, s int64 :: index.SpecRefAt(w.idx.DB, w.cfg.Start, p, s) && s < index.SpecCnt(w.idx.DB, p) && index.SpecIdxStamp(w.idx.DB, p, s) == w.cfg.Start ==> (exists k int, j int64 :: index.SpecGlobal(w.idx.DB, p, s + dw.tracker.count(dw.Writer) - 1, k, j) && end == index.SpecIdxStamp(w.idx.DB, k, j) + 1))
+//@   ensures err == nil && old(end) != 0 ==> ts == old(end)
